@@ -179,6 +179,37 @@ func fatJobs(c *core.Ctx, pl *fatPlan) []fatJob {
 			jobs = append(jobs, fatJob{cfg, fatHeldScript(), "held-handles"})
 		}
 	}
+	// budget of the thorough tier: the depth-3 enumeration times the configurations is in the hundreds of
+	// thousands of behaviours; everything else is kept and the depth-3 behaviours are sampled evenly
+	// (a different residue class per seed)
+	const budget = 70000
+	if len(jobs) > budget {
+		var rest, deep []fatJob
+		for _, j := range jobs {
+			if j.label == "bfs-depth-3" {
+				deep = append(deep, j)
+			} else {
+				rest = append(rest, j)
+			}
+		}
+		room := budget - len(rest)
+		if room < 1 {
+			room = 1
+		}
+		stride := (len(deep) + room - 1) / room
+		if stride < 1 {
+			stride = 1
+		}
+		off := int(c.Seed % int64(stride))
+		for i, j := range deep {
+			if i%stride == off {
+				rest = append(rest, j)
+			}
+		}
+		c.Extra["bfs_depth3_sampled_1_in"] = stride
+		c.Extra["bfs_depth3_generated_jobs"] = len(deep)
+		jobs = rest
+	}
 	return jobs
 }
 
